@@ -28,8 +28,8 @@ MUTANTS = {
     # ---------------------------------------------------------------- C14 / C11 / C03 base metrics
     "rev_fix_selection_rate_scalar": {
         "props": ["C14", "C11", "C03"], "what": "revert fix 43f7c08: weighted single-row selection_rate returns a 1-element array",
-        "edits": [(BM, "        s_w = _convert_to_ndarray_and_squeeze(sample_weight)\n\n    return np.dot(selected, s_w) / s_w.sum()",
-                   "        s_w = np.squeeze(np.asarray(sample_weight))\n\n    return np.dot(selected, s_w) / s_w.sum()")]},
+        "edits": [(BM, "        s_w = _convert_to_ndarray_and_squeeze(sample_weight).astype(np.float64)\n\n    return np.dot(selected, s_w) / s_w.sum()",
+                   "        s_w = np.squeeze(np.asarray(sample_weight)).astype(np.float64)\n\n    return np.dot(selected, s_w) / s_w.sum()")]},
     "labels_not_reversed_for_low_pos_label": {
         "props": ["C14"], "what": "pos_label equal to the smaller label no longer moves it last",
         "edits": [(BM, "            unique_labels = list(reversed(unique_labels))", "            unique_labels = list(unique_labels)")]},
